@@ -8,7 +8,7 @@ CONSTANTS
   AllocBelow = 0
   AllocAbove = 0
   ByteSized = FALSE
-  Lifetime = FALSE
+  Lifetime = TRUE
 INVARIANTS LastAgrees
 POSTCONDITION Post
 CHECK_DEADLOCK FALSE
